@@ -9,11 +9,13 @@ size_t __sanitizer_get_current_allocated_bytes(void);
 #include <sanitizer/lsan_interface.h>
 
 /* ---- ledgers ---- */
-static int live_maps; static pthread_mutex_t map_mu = PTHREAD_MUTEX_INITIALIZER;
+/* mappings are accounted in pages, not in calls: an munmap() that is shorter than the mmap() it answers leaves the tail pages mapped (seed R7-C18) */
+static long live_maps; static pthread_mutex_t map_mu = PTHREAD_MUTEX_INITIALIZER;
+static long map_pages(size_t len) { return (long) ((len + 4095) / 4096); }
 void *vf_mmap(void *a, size_t len, int prot, int flags, int fd, off_t off);
 int vf_munmap(void *a, size_t len);
-void *vf_mmap(void *a, size_t len, int prot, int flags, int fd, off_t off) { void *p = mmap(a, len, prot, flags, fd, off); if (p != MAP_FAILED) { pthread_mutex_lock(&map_mu); live_maps++; pthread_mutex_unlock(&map_mu); } return p; }
-int vf_munmap(void *a, size_t len) { pthread_mutex_lock(&map_mu); live_maps--; pthread_mutex_unlock(&map_mu); return munmap(a, len); }
+void *vf_mmap(void *a, size_t len, int prot, int flags, int fd, off_t off) { void *p = mmap(a, len, prot, flags, fd, off); if (p != MAP_FAILED) { pthread_mutex_lock(&map_mu); live_maps += map_pages(len); pthread_mutex_unlock(&map_mu); } return p; }
+int vf_munmap(void *a, size_t len) { pthread_mutex_lock(&map_mu); live_maps -= map_pages(len); pthread_mutex_unlock(&map_mu); return munmap(a, len); }
 static int count_fds(void) { DIR *d = opendir("/proc/self/fd"); int n = 0; struct dirent *e; while ((e = readdir(d))) if (e->d_name[0] != '.') n++; closedir(d); return n - 1; }
 static int count_threads(void) { DIR *d = opendir("/proc/self/task"); int n = 0; struct dirent *e; while ((e = readdir(d))) if (e->d_name[0] != '.') n++; closedir(d); return n; }
 /* a joined thread can linger in /proc/self/task for a moment after pthread_join returns: wait for the count to settle */
@@ -184,18 +186,36 @@ out:
 	mtbl_writer_options_destroy(&o); mtbl_threadpool_destroy(&tp);
 	free(big); close(fd[0]); close(fd[1]);
 }
+/* reader opened and destroyed on tables whose total file size sits at every interesting residue modulo the page size (the trailer is 512 bytes:
+ * lengths derived from "size minus trailer" change their page count exactly when the residue is 1..512) */
+static void sc_size(rcase *c) {
+	static const size_t RES[] = { 0, 1, 2, 255, 511, 512, 513, 2048, 4095 };
+	tkv e[1]; uint8_t *v = tbl_val(1, 40); e[0] = (tkv) { (const uint8_t *) "k", 1, v, 40 };
+	tcfg cfg = { 0 }; cfg.block_size = 1024;
+	int fd0 = tbl_write(&cfg, e, 1, NULL); struct stat st; fstat(fd0, &st); close(fd0);
+	cfg.prefix = (RES[c->var % 9] + 8192 - (size_t) st.st_size % 4096) % 4096;
+	int fd = tbl_write(&cfg, e, 1, NULL); free(v);
+	struct mtbl_reader *r = NULL; struct mtbl_iter *it = NULL; const uint8_t *k, *vv; size_t kl, vl;
+	POINT();
+	r = mtbl_reader_init_fd(fd, NULL); POINT();
+	if (r) { it = mtbl_source_iter(mtbl_reader_source(r)); POINT(); mtbl_iter_next(it, &k, &kl, &vv, &vl); POINT(); }
+out:
+	if (it) mtbl_iter_destroy(&it);
+	if (r) mtbl_reader_destroy(&r);
+	close(fd);
+}
 static void run_scenario(rcase *c) {
 	g_steps = 0;
 	switch (c->fam) {
 	case 'W': sc_writer(c); break; case 'R': sc_reader(c); break; case 'M': sc_merger(c); break;
-	case 'S': sc_sorter(c); break; case 'F': sc_fileset(c); break; case 'P': sc_pool(c); break;
+	case 'S': sc_sorter(c); break; case 'F': sc_fileset(c); break; case 'P': sc_pool(c); break; case 'Z': sc_size(c); break;
 	}
 }
 
 static uint64_t n_leakfree;
 static void check_case(rcase *c) {
 	vh_case_begin(render, c);
-	size_t heap[4]; int fds[4], maps[4], thr[4];
+	size_t heap[4]; int fds[4], thr[4]; long maps[4];
 	sigjmp_buf jb; bool aborted = false;
 	int thr0 = count_threads();         /* threads alive before the scenario; wait briefly for stragglers of the previous one */
 	for (int i = 0; i < 20; i++) { usleep(2000); int n = count_threads(); if (n == thr0) break; thr0 = n; }
@@ -209,7 +229,7 @@ static void check_case(rcase *c) {
 	} else {
 		if (heap[2] != heap[1]) { vh_violation("heap", "heap bytes in use grow by %zd on every repetition of the scenario (leak)", (ssize_t) (heap[2] - heap[1])); __lsan_do_recoverable_leak_check(); }
 		if (fds[2] != fds[1]) vh_violation("fd", "open descriptors grow by %d on every repetition of the scenario", fds[2] - fds[1]);
-		if (maps[2] != maps[1]) vh_violation("mapping", "reader mappings grow by %d on every repetition of the scenario", maps[2] - maps[1]);
+		if (maps[2] != maps[1]) vh_violation("mapping", "mapped pages of reader mappings grow by %ld on every repetition of the scenario", maps[2] - maps[1]);
 		if (thr[2] > thr0 && thr[2] > thr[1]) vh_violation("thread", "%d thread(s) more than before the scenario are still alive 2 s after everything was destroyed, and the number grows with every repetition", thr[2] - thr0);
 		int left = count_dir(g_tmp); if (left != 0) vh_violation("tempfile", "%d files left in the sorter temp dir", left);
 		n_leakfree++;
@@ -227,7 +247,7 @@ int main(int argc, char **argv) {
 	{ char p[400]; snprintf(p, sizeof p, "%s/junk", g_fsdir); FILE *f = fopen(p, "w"); fputs("not a table\n", f); fclose(f); }
 	rcase c;
 	if (vh_case_arg) { if (sscanf(vh_case_arg, "L:%c:%d:%d:%d", &c.fam, &c.var, &c.stop, &c.order) == 4) check_case(&c); goto done; }
-	static const struct { char fam; int nvar; int norder; } FAM[] = { { 'W', 4, 2 }, { 'R', 6, 2 }, { 'M', 6, 2 }, { 'S', 64, 2 }, { 'F', 4, 2 }, { 'P', 4, 2 } };
+	static const struct { char fam; int nvar; int norder; } FAM[] = { { 'W', 4, 2 }, { 'R', 6, 2 }, { 'M', 6, 2 }, { 'S', 64, 2 }, { 'F', 4, 2 }, { 'P', 4, 2 }, { 'Z', 9, 1 } };
 	uint64_t idx = 0;
 	for (unsigned f = 0; f < sizeof FAM / sizeof *FAM; f++) for (int var = 0; var < FAM[f].nvar; var++) for (int order = 0; order < FAM[f].norder; order++) {
 		if (FAM[f].fam == 'S' && (var & 3) == 3) continue;
